@@ -188,6 +188,27 @@ theorem eos_only_when_drained (cap W : Nat) (h0 : 0 < cap) (h1 : cap < W) (ls : 
     simpa [St.puView, hnh, pendW] using this
   rw [hr.outsEq, hd.2, ← hlen, List.take_length]
 
+/-- **no_lost_wakeup_after_close** (drain_then_eos, liveness ingredient; needs no `NoWrap`): in every
+reachable state in which every source handle has been dropped and the closing thread has finished
+(so nothing will ever notify again), the consumer is NOT blocked — neither on `pop_lock` nor in
+`notified.await` — so each of its steps makes progress through `recv`, whose only exits are a sample
+or end-of-stream (`eos_only_when_drained` says what end-of-stream then means). A bound on the number
+of consumer steps to the next `recv` result is not proved (see NOTES). -/
+theorem no_lost_wakeup_after_close (cap W : Nat) (ls : List Label) :
+    let s := run (init cap W) ls
+    s.closed = true → (∀ i, s.pp i = .none ∨ s.pp i = .reserved ∨ s.pp i = .gone) →
+      blocked s (.cons false) = false := by
+  intro s hc hg
+  exact not_blocked_after_close s (run_WInv _ ls ⟨LInv.init cap W, NInv.init cap W⟩) hc hg
+
+/-- non-vacuity of `no_lost_wakeup_after_close`: the close lands exactly in the old lost-wake-up window
+(after the consumer read `source_closed = false`), and the consumer's next step is enabled -/
+example :
+    let s := run (init 1 (2 ^ 64)) [.cons true, .cons false, .cons false, .cons false, .cons false, .cons false,
+      .cons false, .prod 0 (some .dropSrc), .prod 0 none, .prod 0 none, .prod 0 none]
+    s.closed = true ∧ s.pp 0 = .gone ∧ s.cp = .await1 0 ∧ blocked s (.cons false) = false := by
+  decide
+
 /-- non-vacuity: three producers (two clones), a full capacity-1 queue with drop-oldest, a consumer:
 the hypotheses hold and the run delivers a sample -/
 example :
